@@ -7,7 +7,7 @@ P=${PROP:-$ID}
 W=/tmp/se${TAG}-$ID; K=/tmp/wk${TAG}-$ID
 git -C /repo worktree remove --force $W 2>/dev/null; rm -rf $K
 git -C /repo worktree add --detach $W HEAD >/dev/null 2>&1 || exit 2
-git -C $W apply /verif/seeded/$ID/patch.diff || exit 2
+git -C $W apply ${SEEDED_DIR:-/verif/seeded}/$ID/patch.diff || exit 2
 mkdir -p $K; rsync -a --exclude .git --exclude .build --exclude replays --exclude seeded ${SRC:-/verif}/ $K/
 for s in $SEEDS; do
   VERIF_ROOT=$K VERIF_REPO=$W VERIF_SEED=$s $K/bin/check $P $TIER > $K/out_$s.log 2>&1; rc=$?
